@@ -16,7 +16,7 @@ WIRE_RULE = ("suite wire: seeded request streams over the C01 alphabet (built-in
              "loop; a case is non-trivial when the implementation wrote at least one reply; distinct = distinct case lines")
 
 WIRE_TRUST = [
-    "serde_json's decision which byte strings are requests is a parameter `dec` of the model (delivered per case by the real serde_json)",
+    "the decision which byte strings are requests (UTF-8 throughout, then serde_json on the text — the two calls handle() makes) is a parameter `dec` of the model, delivered per case by the real std/serde_json; P_C06 additionally judges UTF-8 validity on the raw bytes itself",
     "std::io::BufReader is modelled as a buffer refilled by an arbitrary read schedule (theorems hold for every schedule)",
 ]
 
